@@ -26,7 +26,7 @@ CHECKS: dict[str, dict[str, str]] = {
                  "when asked, recovers exactly the signer's key; Verify is true for no (r, s) in 0..n+1 outside the SEC 1 set) and the strict DER "
                  "parser as a byte-at-a-time machine over all strings on a 15-symbol alphabet (accepted => canonical); the tables and strings "
                  "TLC generates are replayed into dsa.sign_/sign_recoverable_/verify_/recover_*/crack_prv_key_var_/Sig.parse; RFC 6979 nonces, "
-                 "signatures, low-R grinding, key ids, DER bytes and verification verdicts recorded at real size (5 catalogued curves + toy "
+                 "signatures, low-R grinding, key ids, DER bytes and verification verdicts recorded at real size (10 catalogued curves incl. the two of cofactor 4 and three whose order is longer than a digest + toy "
                  "groups, 3 hash functions, both arms) are recomputed by TLC."),
         "technique": "TLA+ ECDSA / RFC 6979 / DER specification; TLC model checking on toy groups, table replay into btclib, real-size trace validation",
         "design_ref": "DESIGN.md section 4 C02",
